@@ -162,6 +162,11 @@ const uint32_t %s[] = {\n\
 	/* fix up and convert to target type */
 	d = (struct dt_d_s){DT_DAISY, .daisy = val / 86400 + 109207};
 	d = dt_dconv(typ, d);
+	if (typ == DT_YMCW) {
+		/* only the 22 value bits count, the rest is padding
+		 * and the lookup keys carry zeroes there */
+		d.u &= 0x3fffffU;
+	}
 
 	if (!colp) {
 		if ((cor = strtoul(ep, &ep, 10), ep == NULL || val == ULONG_MAX)) {
